@@ -450,7 +450,12 @@ func init() {
 		case 1:
 			return in.newStructPtr("fmt", "wrapError", mkStr(r.s), r.wrapped[0])
 		}
-		panic(inconclusive("fmt.Errorf with several %w"))
+		// *fmt.wrapErrors{msg string, errs []error}
+		o := in.newObj(len(r.wrapped), "wrapErrors.errs")
+		for i, w := range r.wrapped {
+			o.cells[i] = w
+		}
+		return in.newStructPtr("fmt", "wrapErrors", mkStr(r.s), Slice{o, 0, len(r.wrapped), len(r.wrapped)})
 	}
 	fprint := func(kind int) modelFn {
 		return func(in *Interp, fr *Frame, args []Value, call *ssa.CallCommon) Value {
